@@ -14,9 +14,14 @@
                     comments (no failed block); entry keys pairwise distinct, @string keys pairwise
                     distinct, field keys distinct within an entry; entry types are lower-case `\w` words
                     other than comment/preamble/string...; keys are `SimpleText` (no delimiter, `@`,
-                    backslash) and stripped; every value / preamble / explicit comment is `CleanVal`
-                    (its text, followed by `}`, lexes to brace-balanced tokens and the closing brace);
-                    free-text comments are non-empty, stripped, contain no `@`, and no two are adjacent;
+                    backslash) and stripped; every entry field value is `EncVal` (the enclosed text `{v}`,
+                    followed by `,` or a newline, lexes to a `Value` of the grammar - the content `v`
+                    itself may be unbalanced: `A} # {B`, `a}{b`); every @string value is `EncBal` (the
+                    enclosed text `{v}` lexes to brace-balanced tokens); every preamble / explicit comment,
+                    which are written without added braces, is `CleanVal` (its text, followed by `}`,
+                    lexes to brace-balanced tokens and the closing brace);
+                    free-text comments are non-empty, stripped, contain no block start (`noStart`: the
+                    regex `@\w*[ \t]*{` does not match; other `@` are fine), and no two are adjacent;
                     an entry's `removed_enclosing` metadata is absent or a dict.
   Proof: Lemmas/PrintParseLex (text → tokens of a grammar derivation, block by block),
   PrintParseDoc (the derivation is well formed, C02 `split_correct` gives the blocks),
@@ -46,9 +51,11 @@ def fixpoint_full : Prop :=
 
 /-- **parsed ⇒ writable**: a library returned by `parse_string` whose blocks pass the content side
 conditions `SideOK` (Lemmas/ParsedWritable.lean: no failed block; entry types are lower-case `\w` words;
-keys are `SimpleText`; every value / preamble / explicit comment is `TextOK` = its tokens are
-brace-balanced - hence contain no block start - and it does not end in a backslash; free-text
-comments contain no `@`) is writable -/
+keys are `SimpleText`; every entry field value is `ValueOK` = the tokens of the enclosed text `{v}` are a
+`Value` of the grammar and `v` does not end in a backslash; every @string value is `StrValOK` = the
+tokens of `{v}` are brace-balanced, no trailing backslash; every preamble / explicit comment is `TextOK`
+= its own tokens are brace-balanced and it does not end in a backslash; free-text comments contain no
+block-start sequence `@\w*[ \t]*{`) is writable -/
 def parsed_writable_full : Prop :=
   ∀ (P : PyChars) (s : Str) (L : List Block), PrintOK P →
     parseDefault P s = .ok L → (∀ b ∈ L, SideOK P b) → Writable P L
@@ -64,8 +71,9 @@ def content_preserved_full : Prop :=
 /-! The property's "well-formed document" at the level of the dialect grammar (DESIGN §6 C05, `WF₅`):
 a derivation with pairwise distinct keys, no stripped key / value / explicit comment ending in a
 backslash, entry types that are `\w` words after lower-casing.  `SideOK` is narrower (keys without
-backslash / `@`, values that stay balanced once their own enclosing is stripped, no `@` in free-text
-comments); the statement for all of `WF₅` is kept here and is NOT proved. -/
+backslash / `@` / newline, values and comments without trailing backslash), and it is a condition on
+the parsed library rather than on the derivation; the statement for all of `WF₅` is kept here and is
+NOT proved. -/
 
 def srcNoBS (P : PyChars) (ts : List Tok) : Prop := Reparse.endBS false (strip P (flatten ts)) = false
 
@@ -165,25 +173,55 @@ brace-balanced and it does not end in a backslash (`TextOK`). -/
 theorem cleanVal_of_textOK (hP : PrintOK P) (v : Str) (h : TextOK P v) : CleanVal P v :=
   cleanVal_of_lex hP.rbWord v h.1 h.2
 
+/-- ... and for an entry field value to be `EncVal`: the tokens of the enclosed text `{v}` are a `Value`
+of the grammar and `v` does not end in a backslash (`ValueOK`). -/
+theorem encVal_of_valueOK (hP : PrintOK P) (v : Str) (h : ValueOK P v) : EncVal P v :=
+  encVal_of_lex hP.rbWord v h.1 h.2
+
+/-- The balanced case is a special case: `CleanVal ⇒ EncVal`, `TextOK ⇒ ValueOK` (so everything proved
+for balanced field values before remains a corollary). -/
+theorem encVal_of_cleanVal (v : Str) (h : CleanVal P v) : EncVal P v := encVal_of_clean h
+
+theorem valueOK_of_textOK' (hP : PrintOK P) (v : Str) (h : TextOK P v) : ValueOK P v :=
+  valueOK_of_textOK hP.rbWord v h
+
+/-- a free-text comment without any `@` is in particular without block start -/
+theorem noStart_of_no_at (c : Str) (h : '@' ∉ c) : noStart P c = true := noStart_of_not_mem c h
+
+/-- the same for @string values -/
+theorem encBal_of_strValOK (hP : PrintOK P) (v : Str) (h : StrValOK P v) : EncBal P v :=
+  encBal_of_lex hP.rbWord v h.1 h.2
+
+theorem encBal_of_cleanVal (v : Str) (h : CleanVal P v) : EncBal P v := encBal_of_clean h
+
+theorem strValOK_of_textOK' (hP : PrintOK P) (v : Str) (h : TextOK P v) : StrValOK P v :=
+  strValOK_of_textOK hP.rbWord v h
+
 /-! ### non-vacuity -/
 
 def exF1 : Field := ⟨"title".toList, .str "x{y{z}}".toList, 0⟩
 def exF2 : Field := ⟨"averyveryverylongkey".toList, .str "2020".toList, 0⟩
 def exF3 : Field := ⟨"t".toList, .str "w".toList, 0⟩
+/-- content of the source value `{A} # {B}`: not brace-balanced -/
+def exF4 : Field := ⟨"note".toList, .str "A} # {B".toList, 0⟩
+/-- content of the source value `{a}{b}` -/
+def exF5 : Field := ⟨"adj".toList, .str "a}{b".toList, 0⟩
 
 def exE1 : Entry :=
-  { ty := "article".toList, key := "k1".toList, fields := [exF1, exF2], line := 0, raw := [] }
+  { ty := "article".toList, key := "k1".toList, fields := [exF1, exF2, exF4, exF5], line := 0, raw := [] }
 
 def exE2 : Entry :=
   { ty := "book".toList, key := "".toList,
     fields := [exF3], line := 0, raw := [],
     md := [(Enclosing.REMOVED_ENCLOSING_KEY, .dict [("t".toList, "{".toList)])] }
 
-/-- two entries (a nested-brace value, an empty key, metadata from a previous parse), an @string, a
+/-- two entries (a nested-brace value, two concatenation-shaped values with unbalanced content, an empty
+key, metadata from a previous parse), two @strings (one with unbalanced content), a
 free-text comment, a preamble and an explicit comment -/
 def exLib : List Block :=
   [.live (.entry exE1), .live (.string "s".toList (.str "v".toList) 0 [] []),
-   .live (.impl "free text, with = and {".toList 0 [] []), .live (.entry exE2),
+   .live (.string "s2".toList (.str "a}{b".toList) 0 [] []),
+   .live (.impl "mail a@b.org, with = and {".toList 0 [] []), .live (.entry exE2),
    .live (.preamble "x{y{z}}".toList 0 [] []), .live (.expl "2020".toList 0 [] [])]
 
 theorem simple_of_decide (t : Str) (h : t.all simpleChar = true) : SimpleText t :=
@@ -197,16 +235,19 @@ theorem exLib_writable : Writable asciiChars exLib := by
   refine ⟨?_, by decide, by decide, by simp [exLib, NoAdjImpl, isImpl]⟩
   intro b hb
   simp only [exLib, List.mem_cons, List.not_mem_nil, or_false] at hb
-  rcases hb with rfl | rfl | rfl | rfl | rfl | rfl
+  rcases hb with rfl | rfl | rfl | rfl | rfl | rfl | rfl
   · refine ⟨by decide, by decide, by decide, by decide, by decide, by decide,
       simple_of_decide _ (by decide), by decide, ?_, by decide, Or.inl rfl⟩
     intro f hf
-    change f ∈ [exF1, exF2] at hf
+    change f ∈ [exF1, exF2, exF4, exF5] at hf
     simp only [List.mem_cons, List.not_mem_nil, or_false] at hf
-    rcases hf with rfl | rfl
-    · exact ⟨simple_of_decide _ (by decide), by decide, _, rfl, c1⟩
-    · exact ⟨simple_of_decide _ (by decide), by decide, _, rfl, c2⟩
-  · exact ⟨simple_of_decide _ (by decide), by decide, _, rfl, c4⟩
+    rcases hf with rfl | rfl | rfl | rfl
+    · exact ⟨simple_of_decide _ (by decide), by decide, _, rfl, encVal_of_clean c1⟩
+    · exact ⟨simple_of_decide _ (by decide), by decide, _, rfl, encVal_of_clean c2⟩
+    · exact ⟨simple_of_decide _ (by decide), by decide, _, rfl, encVal_concat⟩
+    · exact ⟨simple_of_decide _ (by decide), by decide, _, rfl, encVal_adj⟩
+  · exact ⟨simple_of_decide _ (by decide), by decide, _, rfl, encBal_of_clean c4⟩
+  · exact ⟨simple_of_decide _ (by decide), by decide, _, rfl, encBal_adj⟩
   · exact ⟨by decide, by decide, by decide⟩
   · refine ⟨by decide, by decide, by decide, by decide, by decide, by decide,
       simple_of_decide _ (by decide), by decide, ?_, by decide, Or.inr ⟨_, rfl⟩⟩
@@ -214,7 +255,7 @@ theorem exLib_writable : Writable asciiChars exLib := by
     change f ∈ [exF3] at hf
     simp only [List.mem_cons, List.not_mem_nil, or_false] at hf
     subst hf
-    exact ⟨simple_of_decide _ (by decide), by decide, _, rfl, c3⟩
+    exact ⟨simple_of_decide _ (by decide), by decide, _, rfl, encVal_of_clean c3⟩
   · exact c1
   · exact ⟨c2, by decide⟩
 
@@ -227,8 +268,9 @@ example : PrintOK asciiChars ∧ FormatOK exFormat ∧ Writable asciiChars exLib
 /-- the text the model's write stack produces for the example (kernel evaluation): `auto` column,
 trailing commas, two-space indent, separator `"\n \n"` -/
 example : writeDefault asciiChars exFormat exLib = .ok
-    ("@article{k1,\n  title                = {x{y{z}}},\n  averyveryverylongkey = {2020},\n}\n\n \n" ++
-     "@string{s = {v}}\n\n \nfree text, with = and {\n\n \n@book{,\n  t                    = {w},\n}\n\n \n" ++
+    ("@article{k1,\n  title                = {x{y{z}}},\n  averyveryverylongkey = {2020},\n" ++
+     "  note                 = {A} # {B},\n  adj                  = {a}{b},\n}\n\n \n" ++
+     "@string{s = {v}}\n\n \n@string{s2 = {a}{b}}\n\n \nmail a@b.org, with = and {\n\n \n@book{,\n  t                    = {w},\n}\n\n \n" ++
      "@preamble{x{y{z}}}\n\n \n@comment{2020}\n").toList := by
   decide +kernel
 
@@ -242,30 +284,35 @@ theorem exLib_sideOK : ∀ b ∈ exLib, SideOK asciiChars b := by
   have t2 : TextOK asciiChars "2020".toList := textOK_simple _ (simple_of_decide _ (by decide))
   have t3 : TextOK asciiChars "w".toList := textOK_simple _ (simple_of_decide _ (by decide))
   have t4 : TextOK asciiChars "v".toList := textOK_simple _ (simple_of_decide _ (by decide))
+  have hv' : ∀ v, TextOK asciiChars v → ValueOK asciiChars v := fun v h => valueOK_of_textOK (by decide) v h
   intro b hb
   simp only [exLib, List.mem_cons, List.not_mem_nil, or_false] at hb
-  rcases hb with rfl | rfl | rfl | rfl | rfl | rfl
+  rcases hb with rfl | rfl | rfl | rfl | rfl | rfl | rfl
   · refine ⟨by decide, by decide, by decide, by decide, by decide, simple_of_decide _ (by decide), ?_⟩
     intro f hf
-    change f ∈ [exF1, exF2] at hf
+    change f ∈ [exF1, exF2, exF4, exF5] at hf
     simp only [List.mem_cons, List.not_mem_nil, or_false] at hf
-    rcases hf with rfl | rfl
-    · exact ⟨simple_of_decide _ (by decide), fun v hv => by injection hv with hv; subst hv; exact t1⟩
-    · exact ⟨simple_of_decide _ (by decide), fun v hv => by injection hv with hv; subst hv; exact t2⟩
-  · exact ⟨simple_of_decide _ (by decide), fun v hv => by injection hv with hv; subst hv; exact t4⟩
-  · show '@' ∉ _; decide
+    rcases hf with rfl | rfl | rfl | rfl
+    · exact ⟨simple_of_decide _ (by decide), fun v hv => by injection hv with hv; subst hv; exact hv' _ t1⟩
+    · exact ⟨simple_of_decide _ (by decide), fun v hv => by injection hv with hv; subst hv; exact hv' _ t2⟩
+    · exact ⟨simple_of_decide _ (by decide), fun v hv => by injection hv with hv; subst hv; exact valueOK_concat⟩
+    · exact ⟨simple_of_decide _ (by decide), fun v hv => by injection hv with hv; subst hv; exact valueOK_adj⟩
+  · exact ⟨simple_of_decide _ (by decide), fun v hv => by
+      injection hv with hv; subst hv; exact strValOK_of_textOK (by decide) _ t4⟩
+  · exact ⟨simple_of_decide _ (by decide), fun v hv => by injection hv with hv; subst hv; exact strValOK_adj⟩
+  · show noStart asciiChars _ = true; decide
   · refine ⟨by decide, by decide, by decide, by decide, by decide, simple_of_decide _ (by decide), ?_⟩
     intro f hf
     change f ∈ [exF3] at hf
     simp only [List.mem_cons, List.not_mem_nil, or_false] at hf
     subst hf
-    exact ⟨simple_of_decide _ (by decide), fun v hv => by injection hv with hv; subst hv; exact t3⟩
+    exact ⟨simple_of_decide _ (by decide), fun v hv => by injection hv with hv; subst hv; exact hv' _ t3⟩
   · exact t1
   · exact t2
 
 /-- non-vacuity of `parsed_writable` / `content_preserved`: there is a document (the written text of the
-example) whose parse has six blocks, all passing the side conditions -/
-example : ∃ s L, parseDefault asciiChars s = .ok L ∧ L.length = 6 ∧ ∀ b ∈ L, SideOK asciiChars b := by
+example) whose parse has seven blocks, all passing the side conditions -/
+example : ∃ s L, parseDefault asciiChars s = .ok L ∧ L.length = 7 ∧ ∀ b ∈ L, SideOK asciiChars b := by
   obtain ⟨L', _, h2, h3, _⟩ := print_parse_render printOK_ascii exFormat ⟨by decide, by decide⟩ exLib exLib_writable
   refine ⟨_, L', h2, ?_, sideOK_congr exLib L' h3 exLib_sideOK⟩
   have := congrArg List.length h3
